@@ -303,14 +303,21 @@ def corruption_selftest(sample_trace, work):
             c[0]["log"][0]["p"] = 987654
             want["CommittedNeverRewritten"] = a
             break
-    # 3. persisted term regresses
+    # 3. persisted term regresses (on a step that leaves this node's term unchanged in the real trace)
     a = copy.deepcopy(lines)
-    for x in a[len(a) // 2:]:
-        c = [n for n in x["n"] if n["hs"]["term"] > 0 and n["up"]]
-        if c and x["ev"] != "reset":
-            c[0]["hs"]["term"] -= 1
-            c[0]["term"] -= 1
-            want["HardStateMonotonic"] = a
+    done = False
+    for k in range(max(1, len(a) // 2), len(a)):
+        if a[k]["ev"] == "reset" or len(a[k]["n"]) != len(a[k - 1]["n"]):
+            continue
+        for j, n in enumerate(a[k]["n"]):
+            p = a[k - 1]["n"][j]
+            if n["up"] and p["up"] and n["hs"]["term"] > 0 and n["hs"]["term"] == p["hs"]["term"]:
+                n["hs"]["term"] -= 1
+                n["term"] -= 1
+                want["HardStateMonotonic"] = a
+                done = True
+                break
+        if done:
             break
     res = {}
     for inv, tr in want.items():
